@@ -41,39 +41,37 @@ Proof.
 Qed.
 
 (* coherence with the input along the scan *)
-Lemma sp_ok_adv d p : sp_rest p = skipn (offset (sp_pos p)) d -> sp_ok d (adv p).
+Lemma sp_ok_adv d p : sp_rest p = skipn (offset (sp_pos p)) d -> offset (sp_pos p) + sp_w p <= length d -> sp_ok d (adv p).
 Proof.
-  intros H. destruct (adv_facts p) as (A & B & C). split; [|exact C].
-  rewrite A, B, H. apply skipn_skipn'.
+  intros H Hl. destruct (adv_facts p) as (A & B & C). split; [|split; [exact C|]].
+  - rewrite A, B, H. apply skipn_skipn'.
+  - rewrite B. exact Hl.
 Qed.
 
 Lemma chain_ok d p q : chain p q -> sp_ok d p -> sp_ok d q.
 Proof.
   induction 1 as [p|p q Hw Hc IH]; intros Hp; [exact Hp|].
-  apply IH. apply sp_ok_adv. apply Hp.
+  apply IH. apply sp_ok_adv; [apply Hp | apply sp_ok_width; exact Hp].
 Qed.
 
 Lemma reach_ok d p : reach d p -> sp_ok d p.
-Proof. intros H. eapply chain_ok; [exact H|]. apply sp_ok_adv. reflexivity. Qed.
+Proof. intros H. eapply chain_ok; [exact H|]. apply sp_ok_adv; [reflexivity | cbn; lia]. Qed.
 
 Lemma sp_ok_off_le d p : sp_ok d p -> offset (sp_pos p) <= length d -> offset (sp_pos p) + sp_w p <= length d.
 Proof.
-  intros [A B] Hl.
-  assert (Hw : sp_w p <= length (sp_rest p)).
-  { pose proof (decode_width_le (sp_rest p)) as H. rewrite <- B in H. exact H. }
-  rewrite A in Hw. rewrite skipn_length in Hw. lia.
+  intros H _. apply sp_ok_width. exact H.
 Qed.
 
 Lemma chain_off_le d p0 q : chain p0 q -> sp_ok d p0 -> offset (sp_pos p0) <= length d -> offset (sp_pos q) <= length d.
 Proof.
   induction 1 as [p|p q Hw Hc IH]; intros Hp Hl; [exact Hl|].
-  apply IH; [apply sp_ok_adv; apply Hp|].
+  apply IH; [apply sp_ok_adv; [apply Hp | apply sp_ok_width; exact Hp]|].
   rewrite adv_off. apply sp_ok_off_le; assumption.
 Qed.
 
 Lemma reach_off_le d p : reach d p -> offset (sp_pos p) <= length d.
 Proof.
-  intros H. eapply chain_off_le; [exact H | apply sp_ok_adv; reflexivity |].
+  intros H. eapply chain_off_le; [exact H | apply sp_ok_adv; [reflexivity | cbn; lia] |].
   rewrite adv_off. cbn. lia.
 Qed.
 
@@ -100,7 +98,7 @@ Proof. apply chain_snoc. Qed.
 (* not at end of input <-> positive width, for coherent save points *)
 Lemma sp_ok_eof d p : sp_ok d p -> (sp_w p = 0 <-> (Z.eqb (sp_rn p) RuneError && Nat.eqb (sp_w p) 0 = true)).
 Proof.
-  intros [A B]. split.
+  intros (A & B & _). split.
   - intros Hw. assert (Hs : snd (decode (sp_rest p)) = 0) by (rewrite <- B; exact Hw).
     apply decode_width_zero in Hs. rewrite Hs in B. cbn in B. inversion B as [[E1 E2]].
     rewrite E1, E2. reflexivity.
